@@ -10,6 +10,7 @@ open RedunModel.Script (Str)
    elem scratch (hash*) i<n>              -> (i<args> i<kwargs> s<out> s<err>) | !IndexError
    gather ((name id ((cid i<n>)*))*) ((parent (hash*))*)   -> ((hash id)*) | !IndexError
    ops scratch (hash*) i<n> T|F none|code|import|lookup|task  -> ((remove p)|(werror p)|(woutput p) ...) | !IndexError
+   rerun scratch (hash*) i<n> T|F N|T|F none|...|task   -> ops of a re-run (existing output: none / valid / invalid)
    gatherq queue prefix ((name id queue STATUS ((cid i<n> STATUS)*))*) ((parent (hash*))*) -> ((hash id)*) | !IndexError
    reunite ((hash id)*) T|F evalhash (aliveId*)            -> (s<id>|none ((hash id)*)) -/
 
@@ -114,6 +115,16 @@ def step (_ : Unit) (line : String) : Unit × String :=
       | .ok ops => ((), "(" ++ " ".intercalate (ops.map opS) ++ ")")
       | .error _ => ((), "!IndexError")
     | _, _, _, _, _ => ((), "bad-value")
+  | some [.atom "rerun", s, hs, i, c, ex, f] =>
+    let ex' : Option (Option Bool) := match ex with
+      | .atom "N" => some none
+      | x => (inB x).map some
+    match inS s, inList inS hs, inN i, inB c, ex', inFail f with
+    | some s, some hs, some i, some c, some ex, some f =>
+      match oneshotRerunOps (writeArrayFiles s (mkJobs hs)) i c ex f with
+      | .ok ops => ((), "(" ++ " ".intercalate (ops.map opS) ++ ")")
+      | .error _ => ((), "!IndexError")
+    | _, _, _, _, _, _ => ((), "bad-value")
   | some [.atom "gatherq", q, p, js, fs] => match inS q, inS p, inList inQJob js, inList inFile fs with
     | some q, some p, some js, some fs =>
       let evalFile : Str → Option (List Str) := fun u => (fs.find? (fun f => f.1 = u)).map (·.2)
